@@ -43,7 +43,11 @@ Inductive aev :=
 | AConnClose
 | ADone                             (* the transport's done channel was observed closed *)
 | AReadErr                          (* the connection's read side ended (EOF / error injected by the peer) *)
-| ASample (pending goroutines : Z) (done connected errnil : bool).
+| ASample (pending goroutines : Z) (done connected errnil : bool)
+| AObserve (done connected : bool) (err : Z)
+                                    (* the three lifecycle accessors read together: Done() closed?, IsConnected()?, and the
+                                       class of Err() (0 = nil) *)
+| AWatchViolation.                  (* a concurrent sampler saw Done() closed with Err() == nil or IsConnected() == true *)
                                     (* a snapshot at quiescence: size of the pending-call table, goroutines of the library
                                        still alive, Done() closed?, IsConnected()?, Err() == nil? *)
 
